@@ -122,3 +122,20 @@ def fill(add):
         "Peak not asserted equal (different definitions); inputs counted in size/write by design.",
         "DESIGN.md 1/C20",
     )
+
+    add(
+        "C08",
+        "exploration",
+        "property-based testing over configurations and harness-owned schedules (Hypothesis-generated completion orders of a scheduled future pool, injected trial failures)",
+        "Generated network x methods x objective x post-processing x max_repeats x executor; the completion order of a harness-owned pool is part of the generated (and shrinkable) case, failures are injected through a registered hyper method keyed on the drawn parameter; the winner's recorded figures are compared with the returned tree and the independent cost model.",
+        "Real thread pools sample orders; process pools are not used here; optlib='random'.",
+        "DESIGN.md 1/C08",
+    )
+    add(
+        "C17",
+        "exploration",
+        "differential property testing across fresh interpreters (generated seeded-API cases, 3 PYTHONHASHSEED values, perturbed global RNG)",
+        "Each generated case is executed twice in each of three fresh interpreters with different string-hash seeds and differently perturbed global random/numpy state, with unrelated random calls in between; all digests must coincide.",
+        "python backend, parallel=False; identical exceptions count as identical results.",
+        "DESIGN.md 1/C17",
+    )
